@@ -4,7 +4,7 @@ from vf.driver import contract_units
 LEVEL = "proof"
 MODULES = ["contracts.c_utils", "contracts.c_primitives", "contracts.c_access", "contracts.c_engine",
            "contracts.c_request", "contracts.c_attributes", "contracts.c_session", "contracts.c_auth",
-           "contracts.c_protocol", "contracts.c_factory", "contracts.c_codec_taint", "contracts.c_config",
+           "contracts.c_protocol", "contracts.c_factory", "contracts.c_codec_taint", "contracts.c_config", "contracts.c_crypto",
            "contracts.c_taint"]
 EXPLANATION = ("Taint contracts: every value of the executor carries a label set; stored values, results of the "
                "cryptography engine and credential values are sources (`secret`), message encodings are `wire`; "
